@@ -3,6 +3,7 @@ package props
 import (
 	"fmt"
 	"go/ast"
+	"go/token"
 	"go/types"
 	"strings"
 
@@ -352,6 +353,53 @@ func pbCodecSanity(c *an.Check, pkgs func(rel string) bool) {
 			return badU
 		}
 		return "no UnmarshalVT methods found (anchor drift)"
+	}())
+	// (a2) every sub-slice dAtA[i:post] with post = i + declaredLength is dominated by the two overflow guards
+	// (post < 0 → error, post > len(dAtA) → error): the declared length comes off the wire
+	nS, badS := 0, ""
+	for _, fn := range p.AllRepoFuncs() {
+		if fn.Name() != "UnmarshalVT" || fn.Parent() != nil || fn.Signature.Recv() == nil || !pkgs(strings.TrimPrefix(fn.Pkg.Pkg.Path(), an.Mod+"/")) {
+			continue
+		}
+		st := p.NewState(fn)
+		for _, b := range fn.Blocks {
+			for _, ins := range b.Instrs {
+				sl, ok := ins.(*ssa.Slice)
+				if !ok || !an.IsParam(sl.X, 1) || sl.High == nil {
+					continue
+				}
+				if bo, isAdd := sl.High.(*ssa.BinOp); !isAdd || bo.Op != token.ADD {
+					continue
+				}
+				nS++
+				nonNeg, inRange := false, false
+				for _, dc := range an.DominatingConds(ins) {
+					x, y, r, isCmp := st.CondRel(dc.Cond, dc.Want)
+					if !isCmp {
+						continue
+					}
+					hk := st.Key(sl.High)
+					if st.Key(x) == hk && an.IsIntConst(y, 0) && r&an.LT == 0 {
+						nonNeg = true
+					}
+					if st.Key(x) == hk && r&an.GT == 0 && an.LenOf(st, y, func(a ssa.Value) bool { return an.IsParam(a, 1) }) {
+						inRange = true
+					}
+					if st.Key(y) == hk && r&an.LT == 0 && an.LenOf(st, x, func(a ssa.Value) bool { return an.IsParam(a, 1) }) {
+						inRange = true
+					}
+				}
+				if !nonNeg || !inRange {
+					badS = fmt.Sprintf("%s slices its input at %s without the %s guard on the computed end index: a wire length near 2^63 (or past the buffer) panics", an.FuncName(fn), p.Pos(sl.Pos()), map[bool]string{true: "upper-bound", false: "overflow (end < 0)"}[nonNeg])
+				}
+			}
+		}
+	}
+	c.Require(badS == "" && nS >= 1, "PANIC", "generated UnmarshalVT methods guard every length-delimited sub-slice", nil, "", nS, fmt.Sprintf("%d sub-slices dominated by end>=0 and end<=len(input)", nS), func() string {
+		if badS != "" {
+			return badS
+		}
+		return "no length-delimited sub-slices found (anchor drift)"
 	}())
 	// (b) encode / size agreement on scalar fields
 	nM, badM := 0, ""
